@@ -333,6 +333,18 @@ def main():
     if not chk.thorough:
         rtasks = [t for t in rtasks if t[1] + t[2] <= 5]
     chk.explore_parallel(rtasks, explore_reset)
+    # the table handed to the lifting scheme by the real _fill_lifting (shared harness of C04): the insertion order must
+    # not depend on which unit is active (global balance needs one table order for all active units of a factor), the
+    # entries are the factor derivatives and sum to zero, the active flag sits on the active unit only
+    sys.path.insert(0, os.path.dirname(os.path.abspath(__file__)))
+    import C04 as c04
+    chk.encoded(c04.ehb_mod.TwoCompositeObjectBoundingPotentialEventHandler._fill_lifting,
+                c04.tcs_mod.TwoCompositeObjectSummedBoundingPotentialEventHandler.send_out_state)
+    chk.bound(fill_lifting="two composite objects of 2 (thorough: 3) leaves, every active leaf, symbolic pair derivatives")
+    chk.register_replay("thin", c04.replay_thin)
+    ms = (2, 3) if chk.thorough else (2,)
+    ftasks = [(m, r, k, ("lifting-table", "lifting-pair")) for m in ms for r in range(2) for k in range(m)]
+    chk.explore_parallel(ftasks, c04.explore_summed)
     chk.finish()
 
 
